@@ -157,6 +157,10 @@ def main(tier):
     c11.operator_outputs_for_c02(run, tier)
     if run.counters.get("irvm-evaluate_outputs_validated", 0) < 800 or run.counters.get("jit_outputs_validated", 0) < 150:
         run.inconclusive_because("too few outputs were validated")
+    from .. import contracts_leg
+
+    if tier == "thorough":
+        contracts_leg.run(run, PID, tier)
     run.assumptions += [
         "validator = property text: pos[0]==0, pos non-decreasing, parent+1 entries present and initialised, each crd segment "
         "strictly increasing and inside the dimension of its level, a value for every stored position; arrays longer than the "
